@@ -7,6 +7,7 @@ import (
 	goerrors "errors"
 
 	"github.com/grailbio/base/errors"
+	"github.com/grailbio/base/status"
 	"github.com/grailbio/bigmachine"
 	zz "github.com/grailbio/bigslice/internal/zzverif"
 	"github.com/grailbio/bigslice/stats"
@@ -203,4 +204,81 @@ func zzH_C02_run() {
 	if zzRunCalls == 0 && st == TaskLost {
 		zz.Reach("lost while compiling")
 	}
+}
+
+// --- scanning a result while machines are lost: the reopen path ---
+
+var (
+	zzEvalCalls   int
+	zzEvalErr     error
+	zzEvalMoveTo  *sliceMachine // if set, "Eval" recomputes the task there
+	zzEvalB       *bigmachineExecutor
+	zzReadAddrs   []string
+	zzReadOffsets []int64
+)
+
+func zzStubEval(ctx context.Context, executor Executor, roots []*Task, group *status.Group) error {
+	zzEvalCalls++
+	if zzEvalErr != nil {
+		return zzEvalErr
+	}
+	if zzEvalMoveTo != nil {
+		// the task's output was lost with its machine; the evaluator
+		// recomputed it on a replacement machine
+		zzEvalB.setLocation(roots[0], zzEvalMoveTo)
+		roots[0].state = TaskOk
+	}
+	return nil
+}
+
+func zzStubRetryCallRead(m *bigmachine.Machine, ctx context.Context, method string, arg, reply interface{}) error {
+	if method == "Worker.Read" {
+		zzReadAddrs = append(zzReadAddrs, m.Addr)
+		zzReadOffsets = append(zzReadOffsets, arg.(readRequest).Offset)
+	}
+	return nil
+}
+
+// zzH_C02_scanReopen: the opener behind a result scan. Every (re)open first
+// re-evaluates the task and then reads from the machine that holds the task's
+// output NOW - also when the machine used by an earlier open was lost and the
+// task was recomputed elsewhere - at the requested offset; an evaluation error
+// is returned, not swallowed.
+func zzH_C02_scanReopen() {
+	a := &sliceMachine{Machine: &bigmachine.Machine{Addr: "machine-A"}}
+	bm := &sliceMachine{Machine: &bigmachine.Machine{Addr: "machine-B"}}
+	b := &bigmachineExecutor{locations: map[*Task]*sliceMachine{}}
+	zzEvalB = b
+	task := &Task{Name: TaskName{Op: "root", NumShard: 1}, state: TaskOk}
+	b.setLocation(task, a)
+	e := &evalOpenerAt{Executor: b, Task: task, Partition: 0}
+	zzEvalCalls, zzEvalErr, zzEvalMoveTo, zzReadAddrs, zzReadOffsets = 0, nil, nil, nil, nil
+	ctx := context.Background()
+	off1 := zz.AnyInt64("offset1")
+	_, err := e.OpenAt(ctx, off1)
+	zz.Assert(err == nil && zzEvalCalls == 1, "an open evaluates the task first")
+	zz.Assert(len(zzReadAddrs) == 1 && zzReadAddrs[0] == "machine-A" && zzReadOffsets[0] == off1, "the first open reads from the machine holding the output, at the requested offset")
+	// between the opens: nothing / machine lost and task recomputed on B / evaluation fails
+	switch zz.AnyIntIn("between", 0, 2) {
+	case 1:
+		zzEvalMoveTo = bm
+		task.state = TaskLost
+		zz.Reach("recomputed on a replacement machine")
+	case 2:
+		zzEvalErr = zzErrTask
+		zz.Reach("re-evaluation failed")
+	}
+	off2 := zz.AnyInt64("offset2")
+	_, err = e.OpenAt(ctx, off2)
+	if zzEvalErr != nil {
+		zz.Assert(err != nil && len(zzReadAddrs) == 1, "a failed re-evaluation is reported and nothing is read")
+		return
+	}
+	zz.Assert(err == nil && zzEvalCalls == 2, "a reopen re-evaluates the task")
+	want := "machine-A"
+	if zzEvalMoveTo != nil {
+		want = "machine-B"
+	}
+	zz.Assert(len(zzReadAddrs) == 2 && zzReadAddrs[1] == want, "a reopen reads from the machine that holds the task's output now")
+	zz.Assert(zzReadOffsets[1] == off2, "a reopen resumes at the requested offset")
 }
